@@ -2,8 +2,12 @@
 From Coq Require Extraction.
 From Coq Require Import ExtrOcamlBasic.
 From Coq Require Import NArith ZArith List.
-From PTQ Require Import Base.Bytes Base.Result Spec.Crc Model.Crc.
+From PTQ Require Import Base.Bytes Base.Result Base.Bits Base.Sha256 Spec.Crc Model.Crc Model.Cell Spec.CellRepr Model.Inst.
 
 Extraction "Extract/model.ml"
   N.add N.mul N.of_nat N.to_nat Z.add Z.mul Z.opp Z.of_N Z.to_N
-  err result bind crc16 crc32c s_crc16 s_crc32c.
+  err result bind crc16 crc32c s_crc16 s_crc32c
+  sha256 of_bits to_bits of_be be_bytes bits_to_bytes bytes_to_bits
+  cell kcell k_ty k_bits k_refs k_mask k_hashes k_depths k_hash cell_eqb cell_pyhash
+  get_hash get_depth mk_cell_sha build_sha repr_hash_sha
+  s_depth s_mask s_hash_sha s_hd_sha s_prune_sha.
